@@ -104,7 +104,8 @@ HdrVals == {"plain", "empty", "ws", "eightbit", "nul", "barecr", "encword", "enc
             "msgid", "msgid_bad", "ct_multi", "ct_multi_nobound", "ct_rfc822", "ct_params_odd",
             "cte_b64", "cte_qp", "cte_unknown", "disp", "disp_odd", "lang_list", "semicolons",
             "comment", "utf8"}
-Frames == {"top", "part", "nested", "deepmulti", "deeprfc"}   \* deep*: under 60..700 levels of nesting
+Frames == {"top", "part", "nested", "deepmulti", "deeprfc",   \* deep*: under 60..700 levels of nesting
+           "obscolon"}   \* top level, white space between the header name and the colon (RFC 5322 4.5: obsolete, legal)
 
 VARIABLES line, mut
 Init == IF Kind = "tmpl"
